@@ -176,7 +176,11 @@ def _filter_values(r, groups, pool, method=None):
     hit = lambda p=0.7: r.random() < p   # noqa: E731
     pick['tracking_uid'] = g['tracking_uid'] if hit() else r.choice([pool['base'] + '.9.0', pool['base'] + '.9.99'])
     pick['finding_type'] = g['finding_type'] if (g['finding_type'] and hit()) else r.choice(srreports.FINDINGS)
-    pick['finding_site'] = r.choice(g['finding_sites']) if (g['finding_sites'] and hit()) else r.choice(srreports.SITES)
+    lats = [x for x in g.get('lateralities', []) if x]
+    if lats and r.random() < 0.25:
+        pick['finding_site'] = r.choice(lats)
+    else:
+        pick['finding_site'] = r.choice(g['finding_sites']) if (g['finding_sites'] and hit()) else r.choice(srreports.SITES)
     own_rt = srreports.REF_TYPE_OF[g['ref']['type']]
     pick['reference_type'] = own_rt if (own_rt and hit()) else r.choice(
         ['ImageRegion', 'ReferencedSegmentationFrame', 'ReferencedSegment', 'VolumeSurface', 'RegionInSpace', 'SourceImageForSegmentation'])
@@ -258,6 +262,9 @@ def _check_accessors(ctx, case, seq, g, method):
     chk('finding_category', _code(seq.finding_category) if seq.finding_category is not None else None,
         tuple(g['finding_category']) if g['finding_category'] else None)
     chk('finding_sites', [_code(s.value) for s in seq.finding_sites], [tuple(s) for s in g['finding_sites']])
+    chk('lateralities', [_code(s.laterality) if s.laterality is not None else None for s in seq.finding_sites],
+        [tuple(x) if x else None for x in g['lateralities']])
+    chk('method', _code(seq.method) if seq.method is not None else None, tuple(g['method']) if g['method'] else None)
     chk('measurements', [(_code(m.name), float(m.value), _code(m.unit)) for m in seq.get_measurements()],
         [(tuple(n), float(v), tuple(u)) for n, v, u in g['measurements']])
     chk('evaluations', [(_code(e.name), _code(e.value)) for e in seq.get_qualitative_evaluations()],
